@@ -33,7 +33,7 @@ chk("C16",
     "buffers and sub-ranges of a live buffer (incl. the empty range with a real pointer), owned views built by foreign code in "
     "diplomat_alloc memory, and diplomat_alloc/diplomat_free as a pair for n >= 0 elements (a strict allocator window counts the "
     "release of a pointer that was never handed out); every "
-    "TLC-enumerated behaviour is replayed on the real runtime types for 12 element types with pointer class, length, contents "
+    "TLC-enumerated behaviour is replayed on the real runtime types for 13 element types (the primitives and a 16-byte 8-aligned view at addresses 8 mod 16) with pointer class, length, contents "
     "and allocation-release counts compared after each step. Two negative models must be refuted.",
     "Trusts TLC, rustc, Unicode Table 3-7 as transcribed, the quarantining allocator of the harness. UB checks of the standard "
     "library (debug assertions on) turn invalid from_raw_parts calls into observable aborts.",
